@@ -251,3 +251,58 @@ def total_overspend(hist: Dict[str, Any], rng: random.Random) -> Optional[Dict[s
         r["ts"] = fmt_ts(earliest - timedelta(days=rng.choice((0, 1, 400))), 0)
         return h
     return None
+
+
+# ---------------------------------------------------------------------------------------------------------
+# instant order vs own-date order (C15, C16): events around a day / year boundary in far-apart UTC offsets
+# ---------------------------------------------------------------------------------------------------------
+
+
+def inverted_dates(rng: random.Random, asset: str = "AAA", kinds: Sequence[str] = ("OUT", "OUT", "IN", "INTRA"), at_new_year: bool = True) -> Tuple[Dict[str, Any], Dict[str, Any]]:
+    """A valid history whose lots are all acquired well before a boundary day, followed by pairs of transactions around the
+    boundary whose own-date order is the reverse of their instant order: the earlier instant is written in an eastern offset
+    (already the next day / year there), the later one in a western offset (still the previous day / year). Returns the
+    history and {"boundary": date (last day before the boundary), "inverted_kinds": [...]}: a to-date equal to `boundary`
+    (or a from-date one day later) cuts between the two own dates."""
+    b = HB(asset=asset, exchanges=EXCHANGES[:2], holders=HOLDERS[:1])
+    year = rng.randint(2016, 2022)
+    if at_new_year:
+        boundary = datetime(year, 12, 31, tzinfo=timezone.utc)
+    else:
+        boundary = datetime(year, rng.randint(2, 11), rng.randint(2, 27), tzinfo=timezone.utc)
+    midnight = boundary + timedelta(days=1)  # 00:00 UTC of the day after the boundary day
+    t = midnight - timedelta(days=rng.randint(200, 500))
+    for _ in range(rng.randint(3, 5)):
+        b.acquire(t, rng.choice((4, 5, 10, "2.5")), rng.randint(50, 500), ttype=rng.choice(("BUY", "BUY", "INTEREST", "MINING")), ex=rng.choice(b.exchanges))
+        t += timedelta(days=rng.randint(5, 40))
+    b.dispose(t, 1, 200, ex=b.rows[0]["ex"])
+    used: List[str] = []
+    east = [o for o in OFFSETS if o >= 330]
+    west = [o for o in OFFSETS if o <= -480]
+    clock = midnight - timedelta(hours=4)
+    for kind in rng.sample(list(kinds), rng.randint(1, min(3, len(kinds)))):
+        # first (earlier instant): after local midnight in the east; second (later instant): before local midnight in the west
+        off_e = rng.choice(east)
+        off_w = rng.choice(west)
+        first = midnight - timedelta(minutes=off_e) + timedelta(minutes=rng.randint(1, 60))
+        first = max(first, clock + timedelta(minutes=1))
+        second = first + timedelta(minutes=rng.randint(30, 180))
+        if first.astimezone(timezone(timedelta(minutes=off_e))).date() <= boundary.date() or second.astimezone(timezone(timedelta(minutes=off_w))).date() > boundary.date():
+            continue
+        clock = second
+        holder = b.holders[0]
+        for instant, off in ((first, off_e), (second, off_w)):
+            if kind == "OUT":
+                source = rng.choice([r for r in b.rows if r["t"] == "IN"])
+                b.dispose(instant, rng.choice(("0.25", "0.5", 1)), rng.randint(50, 500), ttype=rng.choice(OUT_TYPES), ex=source["ex"], ho=holder, offset=off)
+            elif kind == "IN":
+                b.acquire(instant, rng.choice((1, 2, 3)), rng.randint(50, 500), ttype=rng.choice(("BUY", "STAKING", "AIRDROP")), ex=rng.choice(b.exchanges), offset=off)
+            else:
+                source = rng.choice([r for r in b.rows if r["t"] == "IN"])
+                other = [e for e in b.exchanges if e != source["ex"]][0]
+                b.move(instant, "0.5", rng.choice(("0.5", "0.49")), rng.randint(50, 500), (source["ex"], holder), (other, holder), offset=off)
+        used.append(kind)
+    later = clock + timedelta(days=rng.randint(20, 300))
+    b.dispose(later, "0.5", 300, ex=b.rows[0]["ex"])
+    b.acquire(later + timedelta(days=3), 1, 310)
+    return b.done(rng, shuffle=rng.random() < 0.5), {"boundary": boundary.date().isoformat(), "inverted_kinds": used}
